@@ -478,13 +478,40 @@ def rule_Y12(ctx, rule: str = "Y12") -> None:
     ctx.analysed("FieldCompiler.datetime_imports")
     shapes = TypingShapes(ctx.repo)
     n = 0
+    # a map field's key / value types are taken from helper compilers (FieldCompiler(parent=<the map field>, ..)) that
+    # MapEntryCompiler constructs: whether such a helper records its own imports is read off FieldCompiler.__post_init__
+    # (its parent is a FieldCompiler - the map field - which is what an isinstance test there can see)
+    helper_records = False
+    mp = mod.func("MapEntryCompiler.__post_init__") if mod.has("MapEntryCompiler.__post_init__") else None
+    builds_helpers = mp is not None and any(isinstance(c_, ast.Call) and ast.unparse(c_.func) == "FieldCompiler" and any(k_.arg == "parent" and ast.unparse(k_.value) == "self" for k_ in c_.keywords)
+                                            for c_ in ast.walk(mp))
+    helper_unknown = None
+    if builds_helpers and mod.has("FieldCompiler.__post_init__"):
+        pi = mod.func("FieldCompiler.__post_init__")
+        ctx.analysed("FieldCompiler.__post_init__")
+        for p_ in Interp(mod, fork_ifexp=True).run(pi):
+            feasible = True
+            for k_, v_ in p_.valuation.items():
+                t_ = show(k_)
+                if t_ in ("isinstance(self.parent, FieldCompiler)", "isinstance(self.parent, MapEntryCompiler)"):
+                    feasible = feasible and v_ is True
+                elif t_ in ("isinstance(self.parent, MessageCompiler)", "isinstance(self.parent, ProtoContentBase)"):
+                    feasible = feasible and v_ is True
+                else:
+                    helper_unknown = helper_unknown or t_
+            if feasible and any(e.kind == "call" and show(e.data[1]).endswith("add_imports_to") for e in p_.events):
+                helper_records = True
     for comp in TypingShapes.COMPILERS:
         bad = unknown = None
         for base in ("datetime", "timedelta"):
             anns = [("plain", base), ("optional", shapes.apply(comp, "optional", [base])[0]), ("repeated", shapes.apply(comp, "list", [base])[0]),
                     ("map value", shapes.apply(comp, "dict", ["str", base])[0])]
-            for what, ann in anns:
-                paths = [p for p in Interp(mod, bindings={A(N("self"), "annotation"): ann}, fork_ifexp=True).run(fn) if p.outcome == "return" and p.value is not None]
+            anns = [(w_, a_, (base if w_ != "map value" else "OwnerMapFieldEntry")) for w_, a_ in anns]
+            if helper_records:
+                anns.append(("map value (helper)", base, base))
+            got_map = {}
+            for what, ann, pyt in anns:
+                paths = [p for p in Interp(mod, bindings={A(N("self"), "annotation"): ann, A(N("self"), "py_type"): pyt}, fork_ifexp=True).run(fn) if p.outcome == "return" and p.value is not None]
                 ctx.count(len(paths))
                 n += 1
                 if len(paths) != 1:
@@ -517,8 +544,18 @@ def rule_Y12(ctx, rule: str = "Y12") -> None:
                 except TypeError:
                     unknown = unknown or f"{ann!r}: result {got!r} is not a container"
                     continue
+                if what.startswith("map value"):
+                    # the module imports what the map field itself and (when it records imports) its value helper ask for
+                    got_map[what] = (has, ann, got)
+                    continue
                 if not has:
                     bad = bad or (what, base, ann, got)
+            if got_map and len(got_map) == (2 if helper_records else 1) and not any(h_ for h_, _, _ in got_map.values()):
+                if helper_unknown and not helper_records:
+                    unknown = unknown or f"map value: whether the value helper records its imports depends on {helper_unknown}"
+                else:
+                    _, ann_, got_ = got_map["map value"]
+                    bad = bad or ("map value", base, ann_, got_)
         name = f"datetime-imports:cover-annotation-shapes[typing.{comp}]"
         if bad:
             what, base, ann, got = bad
@@ -529,6 +566,7 @@ def rule_Y12(ctx, rule: str = "Y12") -> None:
         else:
             ctx.proved(rule, name, mod.loc(fn), "plain / optional / repeated / map value x datetime / timedelta")
     ctx.floor(rule, "annotation shapes evaluated", n, 24)
+    ctx.notes.append(f"Y12: map value helpers record their own imports: {helper_records}")
 
 
 def rule_Y13(ctx, rule: str = "Y13") -> None:
@@ -616,6 +654,8 @@ def run(ctx) -> None:
     rule_Y13(ctx)
     ctx.rules_run.append("Y12")
     rule_Y12(ctx)
+    ctx.rules_run.append("X1")
+    template.rule_X1(ctx)       # "imports without error": the import lines of rpc-only types are emitted after the stub has registered them
     ctx.rules_run += ["Y1", "Y2", "Y3", "Y4", "Y5", "Y6", "P3(pydantic)", "Y11"]
     rule_Y11(ctx)
     template.rule_Y1(ctx, full=ctx.tier == "thorough")
